@@ -4,6 +4,7 @@ package main
 
 import (
 	"fmt"
+	"go/ast"
 	"strings"
 )
 
@@ -124,12 +125,44 @@ func (c *RC) timeoutHandler() *FuncInfo {
 	if ot == nil {
 		return nil
 	}
+	var th *FuncInfo
 	for _, s := range c.A.FnSites[ot] {
 		if s.Kind == "call" && s.Target != nil && len(s.Target.Params) >= 2 {
-			return s.Target
+			th = s.Target
+			break
 		}
 	}
-	return nil
+	// a wrapper that only forwards (height, view) to another function is not the handler
+	for hop := 0; th != nil && hop < 3; hop++ {
+		if len(th.Decl.Body.List) != 1 {
+			break
+		}
+		es, ok := th.Decl.Body.List[0].(*ast.ExprStmt)
+		if !ok {
+			break
+		}
+		call, ok := es.X.(*ast.CallExpr)
+		if !ok || len(call.Args) < 2 {
+			break
+		}
+		w := &Walker{A: c.A, Fn: th, info: th.Pkg.TypesInfo}
+		next := w.staticCallee(call)
+		if next == nil || len(next.Params) < 2 {
+			break
+		}
+		fwd := true
+		for i := 0; i < 2; i++ {
+			id, ok := ast.Unparen(call.Args[i]).(*ast.Ident)
+			if !ok || th.Pkg.TypesInfo.Uses[id] != th.Params[i] {
+				fwd = false
+			}
+		}
+		if !fwd {
+			break
+		}
+		th = next
+	}
+	return th
 }
 
 // M-REARM
@@ -432,8 +465,42 @@ func ruleAnswer(c *RC) *RuleResult {
 		if nf == 0 {
 			bad = "no false-returning path"
 		}
+		if bad != "" && nf > 0 {
+			// the verifier only reports; then every caller must ask for the view change after a false result
+			callersOK, ncallers := true, 0
+			seenFn := map[*FuncInfo]bool{}
+			for _, cs := range c.A.callers[v] {
+				if seenFn[cs.Fn] {
+					continue
+				}
+				seenFn[cs.Fn] = true
+				ncallers++
+				st2 := newState()
+				for _, l := range notWO {
+					st2.F.add(l)
+				}
+				for _, e := range c.exitsFrom(cs.Fn, st2, false) {
+					if !e.Events["fn:"+v.Name+"=false"] {
+						continue
+					}
+					sent := false
+					for _, f := range cvs {
+						if e.Events["fn:"+f.Name] {
+							sent = true
+						}
+					}
+					if !sent {
+						callersOK = false
+						bad = "in " + cs.Fn.Name + " {" + strings.Join(e.Trail, "; ") + "}"
+					}
+				}
+			}
+			if callersOK && ncallers > 0 {
+				bad = ""
+			}
+		}
 		if bad == "" {
-			r.ok(v.Name + ": every false result is preceded by the ChangeView sender")
+			r.ok(v.Name + ": every false result is accompanied by the ChangeView sender (in the verifier or in each of its callers)")
 		} else {
 			r.fail(v.Name+"/false-sends-cv", c.Prog.Pos(v.Decl), "the verifier returns false without asking for a view change on path "+bad)
 		}
